@@ -12,7 +12,8 @@ from .common import DIMSETS, sym_mesh
 
 META = dict(
     bounds=dict(
-        quick=dict(ndim="1..3", n="<=3 per axis (<=4 in 1-d)", nvdim="1..2", pad="0..2 cells per side; constant/wrap/edge/symmetric",
+        quick=dict(also="a different unit per axis; mask / values edited in place between two resamplings; decimal geometries with new centres on old faces",
+                   ndim="1..3", n="<=3 per axis (<=4 in 1-d)", nvdim="1..2", pad="0..2 cells per side; constant/wrap/edge/symmetric",
                    resample="concrete non-commensurate and commensurate target resolutions", subregions="none / two (cell-aligned)"),
         thorough=dict(ndim="1..4", n="<=4 per axis", nvdim="1..3", pad="0..2 per side, all modes, two directions at once",
                       resample="more resolutions, 3-d", subregions="none / two / overlapping"),
